@@ -11,17 +11,17 @@ let next_mgs () =
   let nums = next_list next_q in let total = next_q () in let isint = next_bool () in
   let mult = next_nat () in
   let parts = if next_bool () then Some (next_list (fun () -> next_list next_q)) else None in
-  { m_numbers = nums; m_total = total; m_int = isint; m_mult = mult; m_parts = parts }
+  { mg_numbers = nums; mg_total = total; mg_int = isint; mg_mult = mult; mg_parts = parts }
 let () = register "mgs" (fun () -> let k = next_nat () in let i = next_mgs () in print_milp (encode_mgs i k))
 (* mgspre: remove, numbers, total ->  the numbers kept *)
 let () = register "mgspre" (fun () ->
   let rm = next_bool () in let nums = next_list next_q in let total = next_q () in
   print_endline ("P " ^ s_qs (mgs_preprocess rm nums total)))
-(* mgsloop: lowerbound, n_initial, list of (k, optimal?) -> tried, result, range *)
+(* mgsloop: lowerbound, n_initial, list of (k, status 0 optimal / 1 infeasible / 2 other) -> tried, result, range *)
 let () = register "mgsloop" (fun () ->
   let lb = next_nat () in let n = next_nat () in
-  let st = next_list (fun () -> let k = next () in let b = next_bool () in (k, b)) in
-  let status k = (try (if List.assoc (int_of_nat k) st then MOptimal else MOther) with Not_found -> MOther) in
+  let st = next_list (fun () -> let k = next () in let b = next () in (k, b)) in
+  let status k = (try (match List.assoc (int_of_nat k) st with 0 -> MgOptimal | 1 -> MgInfeasible | _ -> MgOther) with Not_found -> MgOther) in
   let (tried, res) = mgs_loop status lb n in
   Printf.printf "T %s | R %s | RANGE %s\n" (s_nats tried)
     (match res with Some k -> string_of_int (int_of_nat k) | None -> "none") (s_nats (mgs_range lb n)))
@@ -32,14 +32,14 @@ let () = register "pyround" (fun () -> let x = next_q () in Printf.printf "I %d\
 let () = register "msc" (fun () ->
   let u = next_list next_n in let ss = next_list (fun () -> next_list next_n) in
   let w = if next_bool () then Some (next_list next_q) else None in
-  match encode_msc { s_universe = u; s_subsets = ss; s_weights = w } with
+  match encode_msc { sc_universe = u; sc_subsets = ss; sc_weights = w } with
   | Some m -> print_milp m
   | None -> print_endline "ERROR no-model (TypeError/IndexError)")
 let next_mef () =
   let nodes = next_list next_n in let edges = next_list m_edge in let flow = next_list m_eq in
   let ign = next_list m_edge in let sc = next_list m_eq in let lam = next_q () in
   let src = if next_bool () then Some (next_n ()) else None in let isint = next_bool () in
-  { e_nodes = nodes; e_edges = edges; e_flow = flow; e_ignore = ign; e_scale = sc; e_lambda = lam; e_src = src; e_int = isint }
+  { mef_nodes = nodes; mef_edges = edges; mef_flow = flow; mef_ignore = ign; mef_scale = sc; mef_lambda = lam; mef_src = src; mef_int = isint }
 let () = register "mef" (fun () ->
   let i = next_mef () in
   if mef_ok i then print_milp (encode_mef i) else print_endline "ERROR ValueError")
